@@ -265,11 +265,13 @@ func settleBase() int {
 }
 
 // waitLoops polls until the number of drain goroutines equals want (they exit asynchronously).
-func waitLoops(want int) int {
+func waitLoops(want int) int { return waitLoopsFor(want, 1500*time.Millisecond) }
+
+func waitLoopsFor(want int, d time.Duration) int {
 	if want < 0 {
 		return bucketLoops()
 	}
-	dl := time.Now().Add(1500 * time.Millisecond)
+	dl := time.Now().Add(d)
 	for {
 		n := bucketLoops()
 		if n == want || time.Now().After(dl) {
@@ -323,23 +325,25 @@ type cstate struct {
 }
 
 type ex struct {
-	sl       *stubListener
-	tsl      *trafficshape.Listener
-	h        *trafficshape.Handler
-	conns    map[string]*cstate
-	order    []string
-	gen      int
-	cfg      map[string]*oShape
-	latency  int64
-	base     int // drain goroutines alive before this case
-	cfgLoops int // global buckets of accepted configurations (never closed by the code: known finding)
-	extra    []*trafficshape.Bucket
-	replaced int
-	slack    int
-	poisoned string         // a panic or a hang inside the code under test: the rest of the case is skipped
-	pendCfg  *pendingConfig // a configuration request whose upload is stalled (inter.go)
-	nParked  int            // writes parked inside the inner conn (they hold bucket mutexes)
-	w        *e2eWorld      // real proxy on the shaped listener (e2e.go), started by the first `dial`
+	sl         *stubListener
+	tsl        *trafficshape.Listener
+	h          *trafficshape.Handler
+	conns      map[string]*cstate
+	order      []string
+	gen        int
+	cfg        map[string]*oShape
+	latency    int64
+	base       int // drain goroutines alive before this case
+	cfgLoops   int // global buckets of accepted configurations (never closed by the code: known finding)
+	extra      []*trafficshape.Bucket
+	replaced   int
+	slack      int
+	confirmed  bool                   // a goroutine surplus was confirmed with the long wait
+	cfgBuckets []*trafficshape.Bucket // global buckets of accepted configurations (reaped at the very end of the case)
+	poisoned   string                 // a panic or a hang inside the code under test: the rest of the case is skipped
+	pendCfg    *pendingConfig         // a configuration request whose upload is stalled (inter.go)
+	nParked    int                    // writes parked inside the inner conn (they hold bucket mutexes)
+	w          *e2eWorld              // real proxy on the shaped listener (e2e.go), started by the first `dial`
 }
 
 // expected is the number of drain goroutines the harness can account for right now.
@@ -361,6 +365,12 @@ func (e *ex) expected() int {
 func (e *ex) settle() int {
 	want := e.expected()
 	d := waitLoops(want) - want
+	if d != 0 && !e.confirmed {
+		// a bound-dependent verdict: on a loaded machine a goroutine may need longer to exit; confirm
+		// (once per case: a tree that really leaks must not cost seconds per op)
+		d = waitLoopsFor(want, 6*time.Second) - want
+		e.confirmed = d != 0
+	}
 	e.slack += d
 	return d
 }
@@ -376,12 +386,51 @@ func (P) NewExec() core.Exec {
 	return e
 }
 
+// Close is what the runner calls at the end of a case: everything is closed, and the global shape
+// buckets that the code never closes (the open finding, counted by `leak` before) are reaped so that
+// their drain goroutines do not pile up over thousands of cases.
 func (e *ex) Close() {
+	e.closeAll()
+	e.reap()
+}
+
+// collect remembers the global buckets of the shapes that are active right now.
+func (e *ex) collect(l *trafficshape.Listener) {
+	l.Shapes.RLock()
+	for _, us := range l.Shapes.M {
+		if us.Shape != nil && us.Shape.WriteBucket != nil {
+			e.cfgBuckets = append(e.cfgBuckets, us.Shape.WriteBucket)
+		}
+	}
+	l.Shapes.RUnlock()
+}
+
+func (e *ex) reap() {
+	for _, b := range e.cfgBuckets {
+		b.Close()
+	}
+	e.cfgLoops -= len(e.cfgBuckets)
+	if e.cfgLoops < 0 {
+		e.cfgLoops = 0
+	}
+	e.cfgBuckets = nil
+	waitLoops(e.expected())
+}
+
+func (e *ex) closeAll() {
 	e.abortPending()
 	for _, id := range e.order {
 		cs := e.conns[id]
 		if cs.client != nil {
-			cs.client.Close()
+			// an end-to-end connection belongs to the proxy: its handler closes the shaped conn when the
+			// client hangs up (Conn.Close from two goroutines at once is not something the proxy does)
+			if !cs.closed {
+				_, c0 := theHook.seen(cs.addr)
+				cs.client.Close()
+				waitProxy(cs.addr, 1<<30, c0, 5*time.Second)
+				cs.closed = true
+			}
+			continue
 		}
 		if !cs.closed {
 			cs.c.Close()
@@ -831,6 +880,7 @@ func (e *ex) configured(code int, rb, body string, shapes []rawShape, def []int6
 			e.cfg[s.regexID] = os
 		}
 		e.cfgLoops += n
+		e.collect(e.tsl)
 		e.latency = 0
 		if def != nil {
 			e.latency = def[2]
@@ -1271,7 +1321,7 @@ func (e *ex) doClose(id string) core.Result {
 
 func (e *ex) doLeak(strict bool) core.Result {
 	r := core.Result{SkipModel: true, Impl: "leak ok"}
-	e.Close()
+	e.closeAll()
 	// what must be gone: the local buckets of every open connection, the listener's two buckets and the harness' own fast buckets
 	d := e.settle()
 	left := e.cfgLoops + d
